@@ -56,7 +56,8 @@ pub fn scenarios(tier: Tier) -> Vec<Scenario> {
                         for ch in [false, true] {
                             for reader in [false, true] {
                                 let heavy = (np == 2 && k == 2) || (np == 2 && reader) || (ch && reader);
-                                add(np, k, cap, pol, ch, reader, if heavy { 2 } else { 3 });
+                                let very = np == 2 && ch && reader;
+                                add(np, k, cap, pol, ch, reader, if very { 1 } else if heavy { 2 } else { 3 });
                             }
                         }
                     }
